@@ -399,3 +399,221 @@ Example C12_preempt_small_fuel_does_not_stop :
   pr_preempt_stops 7 5 FuelExamples.iters 0 [] = true /\
   map su_cid (pr_preempt 3 5 FuelExamples.iters 0 []) = [21; 12].
 Proof. exact FuelExamples.small_fuel_does_not_stop. Qed.
+
+(* ------------------------------------------------------------------------------------------ *)
+(* Run level: first containers in arrival order (Proofs/PriorityFifoFacts.v).                   *)
+(*                                                                                              *)
+(* C12_fifo describes one scheduler call. Here: along a whole run, pipelines of equal priority   *)
+(* receive their FIRST container in arrival order -- for priority-pool (which shares the class   *)
+(* queues and the clause) and for priority with multi-operator containers.                       *)
+(* Vocabulary: [arrived s] = the pipelines that have arrived, in arrival order ([sm_arrival]);   *)
+(* [wof s] = the operator states; [fresh C w k] = no operator of pipeline k has left PENDING;     *)
+(* [arrival_job C k] = the job filed when k arrives: all operators of k, no retry statistics.     *)
+(* ------------------------------------------------------------------------------------------ *)
+From Eudoxia Require Import Proofs.NaiveFacts Proofs.PriorityPoolRunFacts Proofs.NaiveRunFacts
+  Proofs.PriorityFifoFacts.
+Close Scope Q_scope.
+Close Scope Z_scope.
+
+(* priority-pool, states. [ops_fresh C w ops]: the list holds an operator of a fresh pipeline;
+   [fresh_of C w c A]: the fresh pipelines of class c among A, in the order of A.
+   In every reachable state and every class queue, the jobs that hold an operator of a fresh pipeline are exactly
+   the arrival jobs of the fresh arrived pipelines of that class, in arrival order (none is missing, none is
+   there twice, none is out of order); a pipeline that has not arrived is fresh. Nothing is assumed about pool
+   sizes or the pool count; pipelines must have at least one operator (C17_run_fifo_needs_operators_refuted) *)
+Theorem C12_pp_run_fifo : forall C l np cpu ram t s,
+  cf_static C = mk_static l -> dags_wf l ->
+  sim_reach C APriorityPool 0%Z (init_sim C np cpu ram) t s ->
+  (forall k, In k (arrived s) -> pd_order (pipe_of (cf_static C) k) <> []) ->
+  (forall c, filter (fun j => ops_fresh C (wof s) (j_ops j)) (queue_of (sm_sched s) c)
+             = map (arrival_job C) (fresh_of C (wof s) c (arrived s))) /\
+  (forall c, map j_pipe (filter (fun j => ops_fresh C (wof s) (j_ops j)) (queue_of (sm_sched s) c))
+             = fresh_of C (wof s) c (arrived s)) /\
+  (forall k, ~ In k (arrived s) -> fresh C (wof s) k) /\
+  NoDup (arrived s).
+Proof. exact PriorityFifoFacts.pp_run_fifo. Qed.
+Print Assumptions C12_pp_run_fifo.
+
+(* priority-pool, ticks. For every tick of every run there is, for each class c, a list [served c] such that
+   - the fresh pipelines of class c before the tick (the tick's arrivals included), in arrival order, are
+     [served c] followed by those that are still fresh after the tick: the pipelines that get their first
+     container are an arrival-ordered PREFIX of the fresh ones -- no pipeline gets its first container while an
+     earlier pipeline of its class is still waiting for its own;
+   - the assignments of the tick that hold an operator of a fresh pipeline are, in the order of the log, one per
+     served pipeline (query, interactive, batch; within a class in arrival order), each with all operators of
+     its pipeline and its priority;
+   - the last clause repeats the order in the form of C17_run_fifo_tick *)
+Theorem C12_pp_run_fifo_tick : forall C l np cpu ram t s newp s' lg,
+  cf_static C = mk_static l -> dags_wf l ->
+  sim_reach C APriorityPool 0%Z (init_sim C np cpu ram) t s ->
+  sim_tick C APriorityPool t s newp = Ok (s', lg) ->
+  (forall k, In k (arrived s') -> pd_order (pipe_of (cf_static C) k) <> []) ->
+  exists served : prio -> list nat,
+    (forall c, fresh_of C (wof s) c (arrived s') = served c ++ fresh_of C (wof s') c (arrived s')) /\
+    Forall2 (fun k a => a_ops a = pd_order (pipe_of (cf_static C) k) /\ a_prio a = prio_of_pipe C k)
+            (served Query ++ served Interactive ++ served Batch)
+            (filter (fun a => ops_fresh C (wof s) (a_ops a)) (tl_asgs lg)) /\
+    (forall c k, In k (served c) ->
+       In k (arrived s') /\ prio_of_pipe C k = c /\ fresh C (wof s) k /\ ~ fresh C (wof s') k) /\
+    (forall l1 k1 l2 k2, arrived s' = l1 ++ k1 :: l2 -> In k2 l2 ->
+       prio_of_pipe C k1 = prio_of_pipe C k2 -> fresh C (wof s) k1 -> In k2 (served (prio_of_pipe C k2)) ->
+       exists s1 s2, served (prio_of_pipe C k2) = s1 ++ k1 :: s2 /\ In k2 s2).
+Proof. exact PriorityFifoFacts.pp_run_fifo_tick. Qed.
+Print Assumptions C12_pp_run_fifo_tick.
+
+(* priority: a preempted container hands its operators back as PENDING, so "all operators PENDING" does not
+   mean "never served" there; the statements speak of the logs instead. [sim_hist C a t0 s0 t s logs]: state s
+   is reached from s0 through the ticks logged, in order, in [logs]; every run yields one: *)
+Theorem C12_run_has_history : forall C a arrivals t s sf logs oe,
+  sim_run C a t s arrivals = (sf, logs, oe) ->
+  sim_hist C a t s (t + Z.of_nat (length logs))%Z sf logs.
+Proof. exact PriorityFifoFacts.sim_run_hist. Qed.
+Print Assumptions C12_run_has_history.
+
+Theorem C12_history_reach : forall C a t0 s0 t s,
+  sim_reach C a t0 s0 t s <-> exists logs, sim_hist C a t0 s0 t s logs.
+Proof.
+  exact (fun C a t0 s0 t s =>
+    conj (PriorityFifoFacts.sim_reach_hist C a t0 s0 t s)
+         (fun H => match H with ex_intro _ logs R => PriorityFifoFacts.sim_hist_reach C a t0 s0 t s logs R end)).
+Qed.
+Print Assumptions C12_history_reach.
+
+(* [served_pipes C logs]: the pipelines that received a container in one of the logged ticks *)
+Theorem C12_served_pipes_meaning : forall C logs k,
+  In k (served_pipes C logs) <->
+  exists lg a o, In lg logs /\ In a (tl_asgs lg) /\ In o (a_ops a) /\ op_pipe (cf_static C) o = k.
+Proof. exact PriorityFifoFacts.served_pipes_In. Qed.
+Print Assumptions C12_served_pipes_meaning.
+
+(* priority, multi-operator containers, states. [jnew C sv j]: job j holds an operator of a pipeline outside
+   sv; [waiting C sv c A]: the pipelines of class c among A that are outside sv, in the order of A.
+   In every class queue the jobs that hold an operator of a never-served pipeline are exactly the arrival jobs of
+   the arrived, never-served pipelines of that class, in arrival order; re-queued work (suspended or failed
+   containers) belongs to served pipelines; a never-served pipeline has all its operators PENDING *)
+Theorem C12_run_fifo : forall C l np cpu ram t s logs,
+  cf_static C = mk_static l -> dags_wf l -> cf_multi C = true ->
+  sim_hist C APriority 0%Z (init_sim C np cpu ram) t s logs ->
+  (forall k, In k (arrived s) -> pd_order (pipe_of (cf_static C) k) <> []) ->
+  (forall c, filter (jnew C (served_pipes C logs)) (queue_of (sm_sched s) c)
+             = map (arrival_job C) (waiting C (served_pipes C logs) c (arrived s))) /\
+  (forall c, map j_pipe (filter (jnew C (served_pipes C logs)) (queue_of (sm_sched s) c))
+             = waiting C (served_pipes C logs) c (arrived s)) /\
+  (forall k, ~ In k (served_pipes C logs) -> fresh C (wof s) k) /\
+  incl (served_pipes C logs) (arrived s) /\ NoDup (arrived s).
+Proof. exact PriorityFifoFacts.priority_run_fifo. Qed.
+Print Assumptions C12_run_fifo.
+
+(* priority, multi-operator containers, ticks: the statement of C12_pp_run_fifo_tick with "never served so far"
+   in the place of "fresh". [anew C sv a]: assignment a holds an operator of a pipeline outside sv;
+   [log_pipes C lg]: the pipelines that receive a container in the tick logged by lg *)
+Theorem C12_run_fifo_tick : forall C l np cpu ram t s logs newp s' lg,
+  cf_static C = mk_static l -> dags_wf l -> cf_multi C = true ->
+  sim_hist C APriority 0%Z (init_sim C np cpu ram) t s logs ->
+  sim_tick C APriority t s newp = Ok (s', lg) ->
+  (forall k, In k (arrived s') -> pd_order (pipe_of (cf_static C) k) <> []) ->
+  exists served : prio -> list nat,
+    (forall c, waiting C (served_pipes C logs) c (arrived s')
+               = served c ++ waiting C (served_pipes C (logs ++ [lg])) c (arrived s')) /\
+    Forall2 (fun k a => a_ops a = pd_order (pipe_of (cf_static C) k) /\ a_prio a = prio_of_pipe C k)
+            (served Query ++ served Interactive ++ served Batch)
+            (filter (anew C (served_pipes C logs)) (tl_asgs lg)) /\
+    (forall c k, In k (served c) ->
+       In k (arrived s') /\ prio_of_pipe C k = c /\ ~ In k (served_pipes C logs) /\ In k (log_pipes C lg)) /\
+    (forall l1 k1 l2 k2, arrived s' = l1 ++ k1 :: l2 -> In k2 l2 ->
+       prio_of_pipe C k1 = prio_of_pipe C k2 -> ~ In k1 (served_pipes C logs) ->
+       In k2 (served (prio_of_pipe C k2)) ->
+       exists s1 s2, served (prio_of_pipe C k2) = s1 ++ k1 :: s2 /\ In k2 s2).
+Proof. exact PriorityFifoFacts.priority_run_fifo_tick. Qed.
+Print Assumptions C12_run_fifo_tick.
+
+(* non-vacuity, on a run where the order matters. Three batch pipelines of one operator; pools of 1 CPU / 1 GB
+   (a container takes the whole pool). Pipeline 0 arrives in tick 0 and fills the pool for three ticks; pipelines
+   2 and 1 arrive IN THIS ORDER in tick 1 while the pool is full. All hypotheses of the four theorems hold at
+   tick 3 (priority-pool: two pools; priority: one pool) ... *)
+Example C12_pp_fifo_hypotheses :
+  cf_static FifoExamples.Cf = mk_static FifoExamples.Lf /\ dags_wf FifoExamples.Lf /\
+  sim_reach FifoExamples.Cf APriorityPool 0%Z (init_sim FifoExamples.Cf 2 1%Z 1%Q) 3%Z FifoExamples.pp_s3 /\
+  sim_tick FifoExamples.Cf APriorityPool 3%Z FifoExamples.pp_s3 [] = Ok (FifoExamples.pp_s4, FifoExamples.pp_lg4) /\
+  (forall k, In k (arrived FifoExamples.pp_s3) -> pd_order (pipe_of (cf_static FifoExamples.Cf) k) <> []) /\
+  (forall k, In k (arrived FifoExamples.pp_s4) -> pd_order (pipe_of (cf_static FifoExamples.Cf) k) <> []).
+Proof. exact FifoExamples.pp_hypotheses. Qed.
+
+Example C12_fifo_hypotheses :
+  cf_static FifoExamples.Cf = mk_static FifoExamples.Lf /\ dags_wf FifoExamples.Lf /\
+  cf_multi FifoExamples.Cf = true /\
+  sim_hist FifoExamples.Cf APriority 0%Z (init_sim FifoExamples.Cf 1 1%Z 1%Q) 3%Z
+           FifoExamples.pr_s3 FifoExamples.pr_logs3 /\
+  sim_tick FifoExamples.Cf APriority 3%Z FifoExamples.pr_s3 [] = Ok (FifoExamples.pr_s4, FifoExamples.pr_lg4) /\
+  (forall k, In k (arrived FifoExamples.pr_s3) -> pd_order (pipe_of (cf_static FifoExamples.Cf) k) <> []) /\
+  (forall k, In k (arrived FifoExamples.pr_s4) -> pd_order (pipe_of (cf_static FifoExamples.Cf) k) <> []).
+Proof. exact FifoExamples.pr_hypotheses. Qed.
+
+(* ... what the runs look like: before the round of tick 3 the batch queue holds the jobs of pipelines 2, 1 in
+   this order, both fresh / never served; the tick assigns operator 2 only; afterwards pipeline 1 alone waits *)
+Example C12_pp_fifo_view :
+  map j_pipe (ss_b (sm_sched FifoExamples.pp_s3)) = [2; 1] /\
+  fresh_of FifoExamples.Cf (wof FifoExamples.pp_s3) Batch (arrived FifoExamples.pp_s4) = [2; 1] /\
+  fresh_of FifoExamples.Cf (wof FifoExamples.pp_s4) Batch (arrived FifoExamples.pp_s4) = [1] /\
+  map a_ops (tl_asgs FifoExamples.pp_lg4) = [[2]] /\
+  map (fun lg => (tl_new lg, map a_ops (tl_asgs lg))) FifoExamples.pp_logs3 = [([0], [[0]]); ([2; 1], []); ([], [])].
+Proof. exact FifoExamples.pp_view. Qed.
+
+Example C12_fifo_view :
+  map j_pipe (ss_b (sm_sched FifoExamples.pr_s3)) = [2; 1] /\
+  served_pipes FifoExamples.Cf FifoExamples.pr_logs3 = [0] /\
+  waiting FifoExamples.Cf (served_pipes FifoExamples.Cf FifoExamples.pr_logs3) Batch (arrived FifoExamples.pr_s4)
+    = [2; 1] /\
+  waiting FifoExamples.Cf (served_pipes FifoExamples.Cf (FifoExamples.pr_logs3 ++ [FifoExamples.pr_lg4])) Batch
+          (arrived FifoExamples.pr_s4) = [1] /\
+  map a_ops (tl_asgs FifoExamples.pr_lg4) = [[2]].
+Proof. exact FifoExamples.pr_view. Qed.
+
+(* ... and the tick theorems applied to them: the pipelines served first in tick 3 are [2] -- the one that arrived
+   first -- and the assignment holding fresh / never-served work is theirs *)
+Example C12_pp_fifo_applied :
+  exists served : prio -> list nat,
+    served Batch = [2] /\
+    Forall2 (fun k a => a_ops a = pd_order (pipe_of (cf_static FifoExamples.Cf) k) /\
+                        a_prio a = prio_of_pipe FifoExamples.Cf k)
+            (served Query ++ served Interactive ++ served Batch)
+            (filter (fun a => ops_fresh FifoExamples.Cf (wof FifoExamples.pp_s3) (a_ops a))
+                    (tl_asgs FifoExamples.pp_lg4)).
+Proof. exact FifoExamples.pp_applied. Qed.
+
+Example C12_fifo_applied :
+  exists served : prio -> list nat,
+    served Batch = [2] /\
+    Forall2 (fun k a => a_ops a = pd_order (pipe_of (cf_static FifoExamples.Cf) k) /\
+                        a_prio a = prio_of_pipe FifoExamples.Cf k)
+            (served Query ++ served Interactive ++ served Batch)
+            (filter (anew FifoExamples.Cf (served_pipes FifoExamples.Cf FifoExamples.pr_logs3))
+                    (tl_asgs FifoExamples.pr_lg4)).
+Proof. exact FifoExamples.pr_applied. Qed.
+
+(* the same for priority read off the logs of a run alone: for every tick [lg] of every run, with [pre] the logs
+   of the earlier ticks, the arrival order up to and including the tick being [flat_map tl_new (pre ++ [lg])]:
+   the pipelines of a class that hold their first container in [lg] are an arrival-ordered prefix of those that
+   hold none in [pre], and their assignments appear in [lg] in that order *)
+Theorem C12_run_fifo_logs : forall C l np cpu ram arrivals sf logs oe,
+  cf_static C = mk_static l -> dags_wf l -> cf_multi C = true ->
+  sim_run C APriority 0%Z (init_sim C np cpu ram) arrivals = (sf, logs, oe) ->
+  (forall k, In k (concat arrivals) -> pd_order (pipe_of (cf_static C) k) <> []) ->
+  forall pre lg post, logs = pre ++ lg :: post ->
+  exists served : prio -> list nat,
+    (forall c, waiting C (served_pipes C pre) c (flat_map tl_new (pre ++ [lg]))
+               = served c ++ waiting C (served_pipes C (pre ++ [lg])) c (flat_map tl_new (pre ++ [lg]))) /\
+    Forall2 (fun k a => a_ops a = pd_order (pipe_of (cf_static C) k) /\ a_prio a = prio_of_pipe C k)
+            (served Query ++ served Interactive ++ served Batch)
+            (filter (anew C (served_pipes C pre)) (tl_asgs lg)).
+Proof. exact PriorityFifoFacts.priority_logs_fifo. Qed.
+Print Assumptions C12_run_fifo_logs.
+
+Example C12_fifo_logs_hypotheses :
+  sim_run FifoExamples.Cf APriority 0%Z (init_sim FifoExamples.Cf 1 1%Z 1%Q) FifoExamples.arrs5
+    = (FifoExamples.pr_s5, FifoExamples.pr_logs3 ++ FifoExamples.pr_lg4 :: [FifoExamples.pr_lg5], None) /\
+  (forall k, In k (concat FifoExamples.arrs5) -> pd_order (pipe_of (cf_static FifoExamples.Cf) k) <> []) /\
+  map (fun lg => (tl_new lg, map a_ops (tl_asgs lg)))
+      (FifoExamples.pr_logs3 ++ FifoExamples.pr_lg4 :: [FifoExamples.pr_lg5])
+    = [([0], [[0]]); ([2; 1], []); ([], []); ([], [[2]]); ([], [[1]])].
+Proof. exact FifoExamples.pr_logs_hypotheses. Qed.
